@@ -1,4 +1,5 @@
 import Guard.Properties.C04
+import Guard.Lemmas.FramesEval
 /-
   C15 — variables and parameterised rules are transparent abstractions.
 
@@ -84,5 +85,36 @@ theorem C15_empty_exception (opNot inverse : Bool) :
   refine ⟨rfl, rfl, ?_, ?_, rfl⟩
   · intro v; simp [emptyExprCheck]
   · intro u; simp [emptyExprCheck]
+
+/-- **evaluation does not disturb the scopes a variable is resolved against**: whatever clause is
+    evaluated, in whatever state, afterwards the scope stack has the same frames: the same roots, the
+    same variable definitions (`let` tables) and the same parameter bindings — only memo tables grew.
+    (All 17 functions of the evaluator: `allPres`.) -/
+theorem C15_scopes_stable (env : Env) (fuel : Nat) (c : Clause) (st st' : St) (s : Status)
+    (h : evalClause env fuel c st = .ok (s, st')) :
+    FramesSim st.frames st'.frames ∧ rootOfFrames st'.frames = rootOfFrames st.frames :=
+  have hs := (allPres env fuel).clause c st s st' h
+  ⟨hs, hs.root.symm⟩
+
+/-- resolving a variable leaves the scopes as they were: later references are resolved against the same
+    definitions -/
+theorem C15_resolution_keeps_definitions (env : Env) (fuel : Nat) (name : Str) (st st' : St) (r : List QR)
+    (h : resolveVariable env fuel name st = .ok (r, st')) : FramesSim st.frames st'.frames :=
+  (allPres env fuel).rvar name st r st' h
+
+/-- a block scope's variable tables are unchanged by anything evaluated inside it -/
+theorem C15_let_tables_unchanged (env : Env) (fuel : Nat) (cnf : Cnf) (b : BlockFrame) (rest : List Frame) (st st' : St)
+    (s : Status) (hf : st.frames = .block b :: rest) (h : evalCnf env fuel cnf st = .ok (s, st')) :
+    ∃ b' rest', st'.frames = .block b' :: rest' ∧ b'.root = b.root ∧ b'.lits = b.lits ∧ b'.queries = b.queries ∧
+      b'.funs = b.funs := by
+  have hs := (allPres env fuel).cnf cnf st s st' h
+  rw [hf] at hs
+  obtain ⟨g, gs, e, hg, _⟩ := FramesSim.cons_inv hs
+  cases g with
+  | block b' =>
+    simp only [Frame.sim] at hg
+    exact ⟨b', gs, e, hg.1.symm, hg.2.1.symm, hg.2.2.1.symm, hg.2.2.2.symm⟩
+  | value r => simp [Frame.sim] at hg
+  | params ps => simp [Frame.sim] at hg
 
 end Guard.C15
